@@ -1,6 +1,7 @@
 package sstable
 
 import (
+	"bytes"
 	"encoding/binary"
 	"fmt"
 	"sync"
@@ -104,16 +105,24 @@ func (it *Iterator) Seek(target []byte) bool {
 	it.err = nil
 	it.initialized = true
 
-	// Find the block that might contain the key
-	// The index contains the first key of each block
-	if !it.indexIterator.Seek(target) {
-		// If seeking in the index fails, try the last block
-		it.indexIterator.SeekToLast()
-		if !it.indexIterator.Valid() {
-			// No blocks in the SSTable
-			it.resetBlockIterator()
-			return false
+	// Find the block that might contain the key. The index holds the first
+	// key of each block, so that is the last block whose first key is <=
+	// target (or the first block if the target precedes every key).
+	candidates := 0
+	for it.indexIterator.SeekToFirst(); it.indexIterator.Valid(); it.indexIterator.Next() {
+		if bytes.Compare(it.indexIterator.Key(), target) > 0 {
+			break
 		}
+		candidates++
+	}
+	it.indexIterator.SeekToFirst()
+	for i := 1; i < candidates; i++ {
+		it.indexIterator.Next()
+	}
+	if !it.indexIterator.Valid() {
+		// No blocks in the SSTable
+		it.resetBlockIterator()
+		return false
 	}
 
 	// Load the data block at the current index position
